@@ -538,4 +538,27 @@ def history {α : Type} : List (List α) → List (Nat × α) → List (List (Li
   | _, [] => []
   | h, (k, x) :: ds => derive h k x :: history (derive h k x) ds
 
+/-- `t_k.apply(t_j)` with a `Transformer` as argument (`transformer.transforms.extend(function.transforms)`):
+    the NEW transformer's chain is the chain of object `k` followed by ALL links of object `j` (its
+    first select included); no new link object is made, `k` and `j` stay as they were. -/
+def deriveCat {α : Type} (h : List (List α)) (k j : Nat) : List (List α) :=
+  h ++ [h.getD k [] ++ h.getD j []]
+
+/-- one derivation: an operation method / `apply(function)` on object `k` (one new link `x`), or
+    `apply(Transformer)`: object `k` with object `j` as the argument -/
+inductive DStep (α : Type) where
+  | one (k : Nat) (x : α)
+  | cat (k j : Nat)
+  deriving Repr, Inhabited
+
+def DStep.run {α : Type} (h : List (List α)) : DStep α → List (List α)
+  | .one k x => derive h k x
+  | .cat k j => deriveCat h k j
+
+/-- the chains of all objects after each derivation of a mixed history (`history` = the histories
+    without `cat` steps: theorem `historyD_one`) -/
+def historyD {α : Type} : List (List α) → List (DStep α) → List (List (List α))
+  | _, [] => []
+  | h, st :: ds => st.run h :: historyD (st.run h) ds
+
 end Genshi.Tf
